@@ -1218,7 +1218,8 @@ def mpf_cosh_sinh(x, prec, rnd=round_fast, tanh=0):
         wp += (-mag)
     # Does exp(-2*x) vanish?
     if mag > 10:
-        if 3*(1<<(mag-1)) > wp:
+        # |x| >= 2**(mag-1), so exp(-2*|x|) <= 2**(-1.4427*2**mag)
+        if 5*(1<<(mag-2)) > wp:
             # XXX: rounding
             if tanh:
                 return mpf_perturb([fone,fnone][sign], 1-sign, prec, rnd)
